@@ -1,7 +1,8 @@
 (* Extraction of the C18 models for the correspondence check. ExtrOcamlBasic only. *)
 From V.lib Require Import Base.
-From V.c18 Require Import C18Model.
+From V.c18 Require Import C18Model C18EntryModel.
 Require Import ExtrOcamlBasic.
 Separate Extraction
   asc adts encode_asc decode_asc canonical asc_roundtrip_ok
-  new_adts adts_frequency encode_adts decode_adts adts_canonical no_sync_in adts_roundtrip_ok.
+  new_adts adts_frequency encode_adts decode_adts adts_canonical no_sync_in adts_roundtrip_ok
+  set_aac_descriptor decode_entry entry_asc.
